@@ -176,6 +176,17 @@ MIS2_RE = re.compile(r'^<<"(MISMATCH|KNOWN)", "([^"]*)", "([^"]*)", (".*")>>$')
 DONE_RE = re.compile(r'^<<"TVDONE", (\d+), (\d+), (\d+)>>')
 
 
+def _unjson(tla_string_literal):
+    """TLC prints ToJson(..) as a TLA+ string literal: decode the literal, then the JSON inside it."""
+    v = json.loads(tla_string_literal)
+    if isinstance(v, str):
+        try:
+            return json.loads(v)
+        except Exception:
+            return v
+    return v
+
+
 def _tv_one(ctx, module, trace, timeout, label, constants, env):
     cfg = ctx.path(f"{label}.cfg")
     lines = ["SPECIFICATION Spec"]
@@ -232,11 +243,11 @@ def run_tv(ctx, module, trace, timeout=1800, label=None, constants=None, env=Non
                 if line.startswith('<<"MISMATCH"') or line.startswith('<<"KNOWN"'):
                     m = MIS2_RE.match(line)
                     if m:
-                        mism.append((m.group(2), json.loads(m.group(4)), m.group(1), m.group(3)))
+                        mism.append((m.group(2), _unjson(m.group(4)), m.group(1), m.group(3)))
                         continue
                     m = MIS_RE.match(line)
                     if m:
-                        mism.append((m.group(2), json.loads(m.group(3)), m.group(1), ""))
+                        mism.append((m.group(2), _unjson(m.group(3)), m.group(1), ""))
                     else:
                         mism.append(("?", line[:2000], "MISMATCH", ""))
                     continue
